@@ -236,3 +236,82 @@ def scope_precedence_sites(repo, module: str = "onnx_ir.serde"):
                         if r is not None:
                             sites.append((f, n, f"`{norm(n)}` (first mapping wins)", "inner" if r else "outer"))
     return sites
+
+
+# ------------------------------------------------------------------------------------------------------
+# Shared rule S3 — accumulated flags are monotone.  A boolean/counter initialised to a false value outside a
+# loop, assigned inside that loop and read after it is an accumulator ("did anything change?"): inside the loop
+# it may only be set by monotone forms (True, flag or x, x or flag, |=, +=).  `flag = x` forgets earlier
+# iterations.
+# ------------------------------------------------------------------------------------------------------
+def accumulator_flags(f: FuncInfo) -> set[str]:
+    """Names initialised to False/0 and assigned inside a loop (candidates of rule S3)."""
+    names = set()
+    for n in own_nodes(f.node):
+        if isinstance(n, (ast.Assign, ast.AnnAssign)) and getattr(n, "value", None) is not None and isinstance(n.value, ast.Constant) \
+                and n.value.value in (False, 0):
+            for t in n.targets if isinstance(n, ast.Assign) else [n.target]:
+                if isinstance(t, ast.Name):
+                    names.add(t.id)
+    out = set()
+    for n in own_nodes(f.node):
+        if isinstance(n, (ast.Assign, ast.AugAssign)):
+            t = n.targets[0] if isinstance(n, ast.Assign) else n.target
+            if isinstance(t, ast.Name) and t.id in names:
+                p = getattr(n, "_parent", None)
+                while p is not None and p is not f.node:
+                    if isinstance(p, (ast.For, ast.While)):
+                        out.add(t.id)
+                    p = getattr(p, "_parent", None)
+    return out
+
+
+def nonmonotone_flags(f: FuncInfo):
+    """[(flag name, offending assignment, loop)] in function f."""
+    out = []
+    inits = {}
+    for n in own_nodes(f.node):
+        if isinstance(n, (ast.Assign, ast.AnnAssign)) and getattr(n, "value", None) is not None and isinstance(n.value, ast.Constant) \
+                and n.value.value in (False, 0):
+            for t in n.targets if isinstance(n, ast.Assign) else [n.target]:
+                if isinstance(t, ast.Name):
+                    inits.setdefault(t.id, []).append(n)
+    if not inits:
+        return out
+
+    def loops_of(node):
+        ls = []
+        p = getattr(node, "_parent", None)
+        while p is not None and p is not f.node:
+            if isinstance(p, (ast.For, ast.While, ast.AsyncFor)):
+                ls.append(p)
+            p = getattr(p, "_parent", None)
+        return ls
+
+    for name, init_nodes in inits.items():
+        for a in own_nodes(f.node):
+            if not (isinstance(a, ast.Assign) and len(a.targets) == 1 and isinstance(a.targets[0], ast.Name) and a.targets[0].id == name):
+                continue
+            if a in init_nodes:
+                continue
+            v = a.value
+            mono = (isinstance(v, ast.Constant) and bool(v.value)) or (
+                isinstance(v, ast.BoolOp) and isinstance(v.op, ast.Or) and any(isinstance(x, ast.Name) and x.id == name for x in v.values)) or (
+                isinstance(v, ast.BinOp) and isinstance(v.op, (ast.BitOr, ast.Add)) and any(isinstance(x, ast.Name) and x.id == name for x in (v.left, v.right)))
+            if mono or (isinstance(v, ast.Constant) and v.value in (False, 0)):
+                continue
+            for lp in loops_of(a):
+                # an initialisation outside this loop (the accumulator spans the loop) …
+                outside = [i for i in init_nodes if lp not in loops_of(i) and not any(i is x for x in ast.walk(lp))]
+                if not outside:
+                    continue
+                # … and a read after the loop
+                after = False
+                for x in own_nodes(f.node):
+                    if isinstance(x, ast.Name) and x.id == name and isinstance(x.ctx, ast.Load) and not any(x is y for y in ast.walk(lp)) \
+                            and (x.lineno, x.col_offset) > (lp.end_lineno or lp.lineno, 0):
+                        after = True
+                if after:
+                    out.append((name, a, lp))
+                    break
+    return out
